@@ -145,6 +145,11 @@ def c05_cases(rnd, n, prefix):
             cfg["minIri"] = True
         c = gen.case("%s%d" % (prefix, i), T, **cfg)
         c["want_shacl"] = cfg.get("disableOr", True)          # the SHACL serializer has no disjunctions (KF.C04.shacl_or)
+        if not shapemap and rnd.random() < .2 and not any(t[0] == "BNode" for s_, _p, o_ in T for t in (s_, o_)):
+            # a Turtle document that declares prefixes of its own, among them labels the user (or the shapes namespace) already uses
+            c["channel"] = "turtle"
+            c["docPrefixes"] = rnd.choice([[["", M.EX]], [["", M.EX], ["ex", gen.OTHER]], [["ex", gen.EX2], ["xsd", gen.OTHER]],
+                                           [["weso-s", M.EX], ["", gen.EX2]], [["rdf", M.EX]]])
         cases.append(c)
     return cases
 
